@@ -138,7 +138,7 @@ func Keys() []string {
 		}
 	}
 	rec("")
-	out = append(out, "\x00\xffa", "x{a}y", "{ab}c", "a}b{ab}c", "}{ab}", "{}{ab}", "{ab}{c}", "a{b{ab}", "A", "Ab", CheckpointKey, CheckpointKey+"-abcd", CheckpointKey+"x", "redis-shake-checkpoin", "lua")
+	out = append(out, "\x00\xffa", "x{a}y", "{ab}c", "a}b{ab}c", "}{ab}", "{}{ab}", "{ab}{c}", "a{b{ab}", "A", "Ab", CheckpointKey, CheckpointKey+"-abcd", CheckpointKey+"x", "redis-shake-checkpoin", "lua", "\xc3\xa9", "k\x80\xfe", "{\xe4\xb8\xad}a")
 	return out
 }
 
@@ -174,7 +174,11 @@ func Configs(path string, level int) []Config {
 		// slot lists: the slot of "ab", another slot, both
 		sAB := strconv.Itoa(crcref.Slot([]byte("ab")))
 		sC := strconv.Itoa(crcref.Slot([]byte("c")))
-		for _, sl := range [][]string{{sAB}, {"1"}, {sAB, sC}} {
+		// slots of keys with bytes >= 0x80 (their slot is computed over bytes, not runes)
+		sHi := strconv.Itoa(crcref.Slot([]byte("\xc3\xa9")))
+		sHi2 := strconv.Itoa(crcref.Slot([]byte("k\x80\xfe")))
+		sHi3 := strconv.Itoa(crcref.Slot([]byte("\xe4\xb8\xad")))
+		for _, sl := range [][]string{{sAB}, {"1"}, {sAB, sC}, {sHi, sHi2, sHi3}} {
 			out = append(out, Config{Slots: sl}, Config{Slots: sl, KeyWhite: []string{"a"}}, Config{Slots: sl, DBBlack: []string{"1"}, Lua: true})
 		}
 	}
